@@ -12,7 +12,7 @@ PENDING = {}   # id -> reason (for properties not claimed)
 TEXT = {
  "C01": ("property-based testing: generated libovni programs, round trip against the emit log (independent codec), ASan, short-write shim, boundary-targeted generation + exhaustive boundary sweep",
          "Every generated program's stream must decode to exactly the emitted events. Exploration is the right level: the property quantifies over programs and buffer-fill positions; the generator targets every residue of the flush thresholds and the thorough tier sweeps them exhaustively, but absence of failures is not a proof."),
- "C02": ("property-based testing: model-guided conformant programs run through libovni, independent stream validator + metadata check + real ovniemu; exhaustive jumbo-size window sweep",
+ "C02": ("property-based testing: model-guided conformant programs run through libovni, independent stream validator + metadata check + real ovniemu; exhaustive jumbo-size window sweep; re-runs into existing traces; programs with more than 1024 threads under the default open-files limit",
          "Conformant programs (legal under the reference model) must leave spec-valid streams that ovniemu -l accepts. Exploration with an exhaustive slice over the near-capacity jumbo sizes, which is where the one known defect lived."),
  "C03": ("model-based testing of heap.h in process (exhaustive small sequences + random), metamorphic/validity oracle on ovnidump/ovnitop merges, differential oracle on PRV times with clock offsets",
          "Any valid merge is accepted (tie order unspecified), so the oracle is a validity predicate plus invariance under directory creation order. Exhaustive for heap op sequences up to the stated length; exploration beyond."),
@@ -20,15 +20,15 @@ TEXT = {
          "Accept/reject must equal the documented state machine for every enumerated history and the state/TID/CPU rows must match after every event. Exhaustive up to the stated lengths (one thread, two threads, two threads on one CPU), exploration beyond."),
  "C05": ("stateful property-based testing (Hypothesis) with a reference occupancy model; cross-check of cpu.prv recomputed from thread.prv",
          "Histories biased towards contention; rejects iff a physical CPU would hold two running threads; CPU rows compared at every event time. Exploration: the space of interleavings is unbounded."),
- "C06": ("stateful property-based testing with full reference evaluation of every (row,type) of thread.prv and cpu.prv; tracking mode taken from the emulator's own .pcf declaration",
+ "C06": ("stateful property-based testing with full reference evaluation of every (row,type) of thread.prv and cpu.prv; tracking mode taken from the window names of the Paraver views shipped under cfg/thread (golden/track_modes.json) where they state it, otherwise from the emulator's own .pcf declaration",
          "Every published quantity of every model is compared with the reference after every event time, including hidden updates and migrations. Exploration."),
  "C07": ("model-based bounded-exhaustive BFS of task.c/body.c in process + stateful property-based end-to-end histories for nOS-V and Nanos6",
          "The task module agrees with the reference on every operation from every reachable state to the stated depth (millions of transitions); end to end the verdict and the task rows match. Exhaustive slice + exploration."),
  "C08": ("exhaustive enumeration over all documented enter/leave pairs (depth 1-2), depth sweep to the stack limit, random histories with mismatches and state gating; label-based oracle from golden/regions.json",
          "Each of the 150 documented pairs shows the documented label while open and nests like a stack; mismatches, wrong thread state and (lint) open regions are refused. Exhaustive over pairs, exploration over histories."),
- "C09": ("fault enumeration: one run per crash point (SIGKILL injected by strace at every file system call of the runtime), progress witness from the syscall log",
+ "C09": ("fault enumeration: one run per crash point (SIGKILL injected by strace at every file system call of the runtime), progress witness from the syscall log and the driver's log; OVNI_TMPDIR beside, on another file system than, or below the trace directory; kill-less runs (file size limit before thread_free, ovni_proc_fini before the last flush, concurrent relocation)",
          "For each generated program every syscall-boundary crash point is executed; the trace a user would hand to ovniemu is never accepted, nor marked finished, with flushed bytes missing. Fault enumeration is exact for the generated programs; programs themselves are sampled."),
- "C10": ("fault enumeration: one run per single failing system call (errno injection by strace) plus real short writes; outcome oracle (abort with diagnostic, or complete valid trace; data never destroyed)",
+ "C10": ("fault enumeration: one run per single failing system call (errno injection by strace) plus file size limits (EFBIG after a partial write) and real short writes; outcome oracle (abort with diagnostic, or complete valid trace; data never destroyed)",
          "Every mkdir/openat/write/close/unlink/rmdir/getdents64/read of the runtime fails once per run; the observable outcome must be an abort with a diagnostic or a complete trace. Exact over the call sites of the generated programs."),
  "C11": ("schedule sampling with ThreadSanitizer on a free-running multi-threaded driver; per-thread round-trip oracle; barrier-released init/fini races",
          "TSan generalises data races over schedules of the executed programs; logical races (exactly-one-winner) are sampled with thousands of barrier-released trials. Exploration: schedules are owned by the OS, not enumerated."),
@@ -43,10 +43,10 @@ TEXT = {
  "C16": ("property-based testing with a stable-sort reference; look-back window computed independently; idempotence, check mode and emulator acceptance",
          "Whenever the documented precondition holds the result must be the stable sort with unchanged bytes; beyond the window only 'sorted' or 'failed with a message' are accepted. Exploration."),
  "C17": ("end-to-end property-based testing through the real mark API (rtdrv), round trip of streams and metadata, reference timeline comparison, PCF label union; single conflicts/misuses must be refused",
-         "Programs over 1-4 threads in one or two processes; values compared at the library's own clocks after the streams were matched against the calls. Exploration."),
+         "Programs over 1-4 threads in one or two processes (of one or two looms); values compared at the library's own clocks after the streams were matched against the calls. Exploration.  One open known finding (C17-label-value-beyond-int) is excluded by construction and reported as KNOWN-FINDING."),
  "C18": ("exhaustive enumeration of all 8 x 95 x 95 codes (unlisted ones with and without well-formed sibling payloads), recipe-based acceptance of every listed event, independent formatter for ovnidump",
          "Declared, decodable and handled event sets coincide for every printable code; decoding checked for generated argument values incl. extremes. Exhaustive over codes, exploration over argument values."),
- "C19": ("structure-aware mutation fuzzing of valid traces at process level (ASan/UBSan subset + exact-size heap buffer hook) on four tools, plus coverage-guided libFuzzer on an in-process decoder target with in-target oracle",
+ "C19": ("structure-aware mutation fuzzing of valid traces at process level (ASan/UBSan subset + exact-size heap buffer hook) on four tools (incl. ovniemu -d, ovnisort -n 0/1), an enumerated part (every listed event code x payload shape x 7 tool invocations), plus coverage-guided libFuzzer on an in-process decoder target with in-target oracle",
          "Exit status, diagnostics, signals, sanitizer reports and CPU time are checked on every tool run. Exploration: fuzzing never establishes absence."),
  "C20": ("model-based bounded-exhaustive testing of sort.c in process + stateful property-based end-to-end -b runs compared with per-CPU values recomputed by the reference model",
          "Sort outputs equal the sorted inputs after every propagation (exhaustive small sequences); breakdown rows equal the sorted per-CPU values at every event time. One open known finding (C20-bare-task-pause) is excluded by construction and reported as KNOWN-FINDING."),
